@@ -45,6 +45,8 @@ SMILES = [
     "CC(=O)Nc1ccc(O)cc1", "NC(=O)c1cccnc1", "OC(=O)CCC(=O)O", "CCN(CC)CC", "CS(=O)C", "OP(=O)(O)O", "CC(C)=O", "C1COCCO1",
     "c1ccc(cc1)-c1ccccc1", "FC(F)(F)c1ccccc1", "CCOC(=O)C", "NCCO", "SCCS", "BrCCBr", "c1csc(n1)N", "C1=CCC=CC1", "CC1=CC(=O)CC(C)(C)C1",
     "N[C@@H](Cc1ccccc1)C(=O)O", "C[S+](C)C.[I-]",
+    # isotopically labelled hydrogens (RDKit keeps them as explicit atoms): hydrogens all the same
+    "[2H]C([2H])([2H])C(=O)Nc1ccccc1", "[2H]Oc1ccccc1[3H]", "[2H]C([2H])([2H])O.[Na+]", "[2H]N([2H])CCO",
 ]
 
 _cache = {}
